@@ -232,6 +232,14 @@ end Spec
 def Effects.Pure (E : Effects κ γ τ σ ν) : Prop :=
   (∀ k, E.cwrites k = []) ∧ (∀ k, E.vwrites k = []) ∧ (∀ t, E.ctorWrites t = [])
 
+/-- the same table with every in-place write erased -/
+def Effects.purify (E : Effects κ γ τ σ ν) : Effects κ γ τ σ ν :=
+  { E with cwrites := fun _ => [], vwrites := fun _ => [], ctorWrites := fun _ => [] }
+
+/-- `S` is a set of keys none of which writes in place and which is closed under "reads" -/
+def Effects.CleanOn (E : Effects κ γ τ σ ν) (S : κ → Prop) : Prop :=
+  ∀ k, S k → E.cwrites k = [] ∧ E.vwrites k = [] ∧ ∀ d ∈ E.deps k, S d.2
+
 /-! ### Seeded simulation (autoarray/dataset/preprocess.py `setup_random_seed`,
     `poisson_noise_via_data_eps_from`; autoarray/dataset/imaging/simulator.py `via_image_from`) -/
 
